@@ -167,14 +167,54 @@ def runloop_cancel_guard(c: Ctx) -> tuple[bool, list[str]]:
             simple = all(any(isinstance(x, ast.Call) and call_name(x) == 'cancelling' for x in ast.walk(v)) or U(v) in {f'{t} is not None' for t in tasks} | set(tasks) for v in conj)
             if leaves and simple:
                 guards.append(n)
+    # the same guard spelled through a flag: `flag = <expr over current_task().cancelling()>` followed, on every way back to the loop head, by an `if` over that
+    # flag which leaves the loop when a cancellation is pending (this is also what folding a `_run_loop_iteration() -> bool` helper produces)
+    from sa.absint import AbsInt, Rec
+    from sa.cfg import search as _search
+
+    for n in g.live_nodes():
+        st_ = n.ast
+        if not (n.kind == 'stmt' and isinstance(st_, ast.Assign) and len(st_.targets) == 1 and isinstance(st_.targets[0], ast.Name) and q.lexically_in(st_, loop, 'body')):
+            continue
+        if not any(isinstance(x, ast.Call) and call_name(x) == 'cancelling' for x in ast.walk(st_.value)):
+            continue
+        flag = st_.targets[0].id
+        env = {t: Rec() for t in tasks}
+        ai = AbsInt(calls={'.cancelling': lambda *a: True, 'asyncio.current_task': lambda *a: Rec(), 'current_task': lambda *a: Rec()})
+        val = ai.truth(ai.ev(st_.value, env))
+        if val is None:
+            continue
+        ifs = [m for m in g.live_nodes() if m.kind == 'if' and q.lexically_in(m.ast, loop, 'body') and flag in {x.id for x in ast.walk(m.ast.test) if isinstance(x, ast.Name)}]
+        leaving = []
+        for m in ifs:
+            t = AbsInt().truth(AbsInt().ev(m.ast.test, {flag: val}))
+            branch = m.ast.body if t else m.ast.orelse if t is False else None
+            if branch is not None and any(isinstance(b, (ast.Break, ast.Return, ast.Raise)) for b in branch):
+                leaving.append(m)
+        if not leaving:
+            continue
+        lid = {m.id for m in leaving}
+        # from the assignment, no way back to the loop head avoids such an `if` (and the flag is not reassigned on the way)
+        fl0 = Facts(lambda a: False, cg=c.cg, unit=rl)
+        esc = _search([(n, ())], is_target=lambda x, d: x is head, is_barrier=lambda x, d: x.id in lid,
+                      edge_ok=lambda x, e, d: None if (x is head and e.label != 'true') else fl0.edge_ok(x, e, d), transfer=fl0.transfer)
+        if esc is None:
+            guards.append(n)
     if not guards:
         return False, ['the run loop never re-checks current_task().cancelling()']
     gid = {n.id for n in guards}
     from sa.cfg import search
 
     # every way back to the loop head (normal completion of an iteration, or after a contained exception) passes the guard
-    p = search([(head, ())], is_target=lambda n, d: n is head, is_barrier=lambda n, d: n.id in gid,
-               edge_ok=lambda n, e, d: None if (n is head and e.label != 'true') else d)
+    # (facts: the synthetic flags a folded helper leaves behind are tracked, so that infeasible combinations of them are not explored)
+    fl = Facts(lambda a: False, cg=c.cg, unit=rl)
+
+    def edge_ok(n, e, d):
+        if n is head and e.label != 'true':
+            return None
+        return fl.edge_ok(n, e, d)
+
+    p = search([(head, ())], is_target=lambda n, d: n is head, is_barrier=lambda n, d: n.id in gid, edge_ok=edge_ok, transfer=fl.transfer)
     if p is not None:
         return False, ['an iteration of the run loop can start over without re-checking current_task().cancelling()'] + fmt_path(head, p)
     return True, []
